@@ -58,12 +58,23 @@ def load_known(repo_modules=()):
                 register(obj)
 
 
+_SUBMACRO = {}
+
+
 def subclass(c, pycls):
-    """formula: the class with id term `c` is a subclass of the Python class `pycls`."""
+    """formula: the class with id term `c` is a subclass of the Python class `pycls` (a z3 function
+    definition per class, re-made when new classes get registered)."""
     k = cid(pycls)
-    alts = [c == z3.IntVal(_ids[d]) for d in _classes if isinstance(d, type) and issubclass(d, pycls)]
-    alts.append(z3.And(c >= UNKNOWN, usub(c, z3.IntVal(k))))
-    return z3.Or(*alts)
+    key = (k, len(_classes))
+    f = _SUBMACRO.get(key)
+    if f is None:
+        x = z3.Int("sub!x")
+        alts = [x == z3.IntVal(_ids[d]) for d in _classes if isinstance(d, type) and issubclass(d, pycls)]
+        alts.append(z3.And(x >= UNKNOWN, usub(x, z3.IntVal(k))))
+        f = z3.RecFunction("subclass_%d_%d" % key, z3.IntSort(), z3.BoolSort())
+        z3.RecAddDefinition(f, [x], z3.Or(*alts))
+        _SUBMACRO[key] = f
+    return f(c)
 
 
 def exact(c, pycls):
